@@ -18,6 +18,13 @@ from props import PROPS
 
 
 def main(argv):
+    # several properties in one process (tools only): ./check C01,C04,... [--repo ..]
+    if argv and "," in argv[0]:
+        rc = 0
+        for p in argv[0].split(","):
+            print("=== %s" % p)
+            rc = max(rc, main([p] + argv[1:]))
+        return rc
     ap = argparse.ArgumentParser()
     ap.add_argument("prop")
     ap.add_argument("--tier", default=os.environ.get("VERIF_TIER", "quick"), choices=["quick", "thorough"])
